@@ -120,7 +120,8 @@ class RunResult(object):
 def build_device(spec, rec=None, chooser=None):
     seed = spec.get('seed', 0)
     dev = simdev.SimDevice(chooser=chooser or simdev.Seeded(seed), rec=rec, seed=seed, rid_of=rid_fn(spec.get('rid', 'plus'), seed),
-                           auth=simdev.AuthPolicy(maxdata=spec.get('maxdata', 4096)))
+                           auth=simdev.AuthPolicy(maxdata=spec.get('maxdata', 4096), version=spec.get('version', 0x01000000)))
+    dev.eager = bool(spec.get('eager', False))
     dev.reorder = bool(spec.get('reorder', False))
     if spec.get('small'):
         dev.syms_of = lambda payload: [BYTE_SYM.get(x, 99) for x in bytes(payload)]
@@ -238,6 +239,19 @@ def run(spec, mode='sync', rec=None, chooser=None, keep_session=False, **core_kw
     return rr
 
 
+class _FailingSink(io.BytesIO):
+    def __init__(self, k):
+        io.BytesIO.__init__(self)
+        self.k = k
+        self.n = 0
+
+    def write(self, b):
+        self.n += 1
+        if self.n >= self.k:
+            raise IOError('disk full (injected)')
+        return io.BytesIO.write(self, b)
+
+
 class _Raiser(object):
     def __init__(self, log, fail):
         self.log, self.fail = log, fail
@@ -251,6 +265,8 @@ class _Raiser(object):
 def run_op(s, op, a, tmp, i, rr):
     api = op['api']
     tkw = {k: op[k] for k in ('transport_timeout_s', 'read_timeout_s', 'timeout_s') if k in op}
+    if op.get('late'):
+        s.dev.hold_next_open = True     # the device withholds everything of this stream until the next OPEN arrives
     if api in ('shell', 'exec_out'):
         return s.call(api, a['cmd'], decode=op.get('decode', True), _info=dict(i=i), **tkw)
     if api == 'streaming_shell':
@@ -266,7 +282,11 @@ def run_op(s, op, a, tmp, i, rr):
     rr.extra.setdefault('cb', {})[i] = log
     cbf = _Raiser(log, cb == 'raise') if cb else None
     if api == 'pull':
-        if op.get('dest', 'bytesio') == 'bytesio':
+        if isinstance(op.get('dest'), list):      # ['raise', k]: a sink whose k-th write fails (local I/O error mid-transfer)
+            dest = _FailingSink(op['dest'][1])
+            o = s.call('pull', a['path'], dest, progress_callback=cbf, _info=dict(i=i), **tkw)
+            rr.extra.setdefault('pulled', {})[i] = dest.getvalue()
+        elif op.get('dest', 'bytesio') == 'bytesio':
             dest = io.BytesIO()
             o = s.call('pull', a['path'], dest, progress_callback=cbf, _info=dict(i=i), **tkw)
             rr.extra.setdefault('pulled', {})[i] = dest.getvalue()
@@ -344,20 +364,20 @@ def text_to_outsyms(text):
 
 def shell_units(result_bytes, payloads, lid):
     """Name the result of a shell-like call as a sequence of [[lid_hi, lid_lo], index] of the device's payloads
-    (in order; a residue that is not the next payload is named [[0,0],0] = alien)."""
+    (in order; a residue that is not the next payload is named [[0,0],0] = alien).  A trailing run of payloads that
+    are absent from the result is simply not named (the monitor then sees too few units)."""
     units = []
     pos = 0
-    i = 0
     w = wire.limbs(lid)
     n = len(result_bytes)
-    while pos < n:
-        if i < len(payloads) and len(payloads[i]) > 0 and result_bytes.startswith(payloads[i], pos):
+    for i, p in enumerate(payloads):
+        if result_bytes.startswith(p, pos):
             units.append([w, i + 1])
-            pos += len(payloads[i])
-            i += 1
+            pos += len(p)
         else:
-            units.append([[0, 0], 0])
             break
+    if pos < n:
+        units.append([[0, 0], 0])
     return units
 
 
@@ -423,7 +443,7 @@ def project_events(rr, spec, syms=False):
 BOUNDARY32 = [0, 1, 0x7FFF, 0x8000, 0xFFFF, 0x10000, 0x7FFFFFFF, 0x80000000, 0xFFFFFFFF]
 
 
-def gen_session(rng, idx, big=False, ops_max=6, allow=('shell', 'exec_out', 'streaming_shell', 'root', 'reboot', 'stat', 'list', 'pull', 'push'),
+def gen_session(rng, idx, big=False, adversarial=False, ops_max=6, allow=('shell', 'exec_out', 'streaming_shell', 'root', 'reboot', 'stat', 'list', 'pull', 'push'),
                 maxdatas=(4096, 65536, 256 * 1024, 1024 * 1024)):
     """A random, well-formed session spec (device behaves; all ops should succeed)."""
     maxdata = rng.choice(list(maxdatas) + [rng.randint(4096, 1024 * 1024)])
@@ -457,15 +477,32 @@ def gen_session(rng, idx, big=False, ops_max=6, allow=('shell', 'exec_out', 'str
             size = rng.choice([0, 1, chunk - 1, chunk, chunk + 1, maxdata - 9, maxdata, maxdata + 9, 2 * chunk + 1, rng.randint(0, 300000)] + ([rng.randint(300000, 3000000)] if big else []))
             ops.append(dict(api='push', path=rng.choice(['/q', '/sdcard/' + 'n' * rng.randint(1, 900)]), size=size, src=rng.choice(['bytesio', 'path']),
                             st_mode=rng.choice([0o100644, 33272, 0xFFFFFFFF, 0]), mtime=rng.choice([1, 1500000000, 0xFFFFFFFF, 0]), cb=None))
-    return dict(seed=rng.randrange(1 << 30), maxdata=maxdata, rid=rng.choice(['plus', 'random', 'high', 'same']), frag=rng.choice(['whole', 'whole', 'random', 'empty']),
+    spec = dict(seed=rng.randrange(1 << 30), maxdata=maxdata, rid=rng.choice(['plus', 'random', 'high', 'same']), frag=rng.choice(['whole', 'whole', 'random', 'empty']),
                 lid0=rng.choice([None, None, 2 ** 32 - 3, 2 ** 31 - 2, 65534]), ops=ops)
+    if adversarial:
+        # legal but unusual device behaviour, and local failures in the middle of a transfer
+        spec['version'] = rng.choice([0x01000000, 0x01000001, 0x01000000, 0xFFFFFFFF, 0])
+        spec['eager'] = rng.random() < 0.5
+        spec['reorder'] = rng.random() < 0.5
+        for op in ops:
+            if op['api'] in ('shell', 'exec_out', 'streaming_shell') and rng.random() < 0.3 and op['chunks']:
+                op['chunks'].insert(rng.randrange(len(op['chunks']) + 1), '')          # a zero-length WRITE
+            if op['api'] == 'pull' and rng.random() < 0.4:
+                op['dest'] = ['raise', rng.randint(1, 3)]
+                op['data_sizes'] = [rng.choice([1, 50, 4096]) for _ in range(6)] + [65536] * 64
+                op['size'] = max(op['size'], 20000)
+                op['cb'] = None
+            if op['api'] == 'push' and rng.random() < 0.4:
+                op['plan'] = dict(where=rng.choice(['SEND', 'DATA', 'DONE']), k=rng.randint(0, 2), reason='no space')
+                op['size'] = max(op['size'], 3 * maxdata if maxdata <= 65536 else op['size'])
+    return spec
 
 
 def run_corpus(specs, modes=('sync', 'async'), syms=False):
     """Run specs (alternating modes); returns list of (mode, spec, RunResult, trace)."""
     out = []
     for i, spec in enumerate(specs):
-        mode = modes[i % len(modes)]
+        mode = modes[(i * 7 + i // 2) % len(modes)]      # decorrelated from every other alternation in the generators
         rr = run(spec, mode)
         out.append((mode, spec, rr, project_events(rr, spec, syms=syms)))
     return out
